@@ -175,6 +175,9 @@ def run(ctx):
     quick = ctx.tier == "quick"
     rng = random.Random(ctx.seed + 15)
     conn = pq.NumpyConnector()
+    ctx.level = "exploration"
+    ctx.rule = ("inputs are the reachable states of PqDecomp.tla enumerated exhaustively by TLC to the stated depth over a sampled lattice gate catalogue (plus permutation / diagonal / "
+                "block-diagonal unitaries and all graphs on <= 4 vertices); a case is distinct by (dimension, gate sequence or matrix); non-trivial = at least one gate applied")
     counters = ctx.notes.setdefault("counters", {"states": 0, "clements": 0, "takagi": 0, "williamson": 0, "euler": 0, "graphs": 0})
     plans = [(1, 6, 2), (2, 9, 2), (3, 6, 2)] if quick else [(1, 10, 3), (2, 16, 3), (3, 12, 3)]
     for (d, ng, depth) in plans:
